@@ -19,6 +19,7 @@ Notation key := (list N) (only parsing).
 
 Inductive errno :=
   | ENOENT | ENOTDIR | EISDIR | EEXIST | ENOTEMPTY | ENAMETOOLONG | EINVAL   (* as the kernel / package os report *)
+  | EXDEV           (* rename across file systems: refused, without effect (C18, staging on another file system) *)
   | EIO | ENOSPC | EACCES                                                    (* injected faults (C18) *)
   | E404            (* memstore's fmt.Errorf("404"), cidlink.Memory's os.ErrNotExist *)
   | EBADLINK        (* cidlink.Memory: "incompatible link type" *)
